@@ -196,7 +196,7 @@ class AbstractDateTime(AnyAtomicType):
             raise OverflowError("year overflow")
         else:
             self._year = year
-            if isleap(year + bool(self._xsd_version != '1.0')):
+            if isleap(year + 1 if year < 0 else year):  # leap years of the astronomical year
                 self._dt = datetime.datetime(4, month, day, hour, minute,
                                              second, microsecond, tzinfo)
             else:
